@@ -612,13 +612,73 @@ func Eval(c Case) ([]string, string) {
 		return evalMigrateFail(c)
 	case "migrate_dryrun":
 		return evalMigrateDryRun(c)
+	case "migrate_fkcommit":
+		return evalFKCommit(c), ""
 	default:
 		return evalSchema(c)
 	}
 }
 
+// evalFKCommit: the failure is the transaction's commit itself. The SQLite driver switches foreign-key
+// enforcement off inside its transactions and refuses the commit when the transaction has added a
+// violation. The database already holds one violation (an orphan row written with enforcement off);
+// the first file removes that row and inserts another orphan, so the number of violations stays the
+// same: the commit must still be refused and nothing of the file (file mode) / of any file (all
+// mode) may remain.
+func evalFKCommit(c Case) (problems []string) {
+	bad := func(f string, a ...any) { problems = append(problems, fmt.Sprintf(f, a...)) }
+	w, err := clih.NewWork()
+	if err != nil {
+		return []string{"harness: " + err.Error()}
+	}
+	defer w.Close()
+	if err := w.Exec("db.sqlite", "PRAGMA foreign_keys = off",
+		"CREATE TABLE parent (id integer PRIMARY KEY)",
+		"CREATE TABLE child (id integer PRIMARY KEY, pid integer REFERENCES parent (id))",
+		"INSERT INTO child VALUES (1, 999)",
+		"CREATE TABLE journal (sid integer NOT NULL)"); err != nil {
+		return []string{"harness: " + err.Error()}
+	}
+	swap := []string{"DELETE FROM child WHERE id = 1", "INSERT INTO child (id, pid) VALUES (2, 998)"}
+	if c.Extra == "two_for_one" {
+		// two old orphans are replaced by one new one: the count even drops.
+		if err := w.Exec("db.sqlite", "PRAGMA foreign_keys = off", "INSERT INTO child VALUES (3, 997)"); err != nil {
+			return []string{"harness: " + err.Error()}
+		}
+		swap = append([]string{"DELETE FROM child WHERE id = 3"}, swap...)
+	}
+	f1 := "INSERT INTO journal (sid) VALUES (11);\n" + strings.Join(swap, ";\n") + ";\nINSERT INTO journal (sid) VALUES (12);\n"
+	if err := w.WriteDir("migrations", map[string]string{"1_f.sql": f1, "2_f.sql": "INSERT INTO journal (sid) VALUES (21);\n"}); err != nil {
+		return []string{"harness: " + err.Error()}
+	}
+	childBefore, _ := w.Query("db.sqlite", "SELECT id, pid FROM child ORDER BY id")
+	r := w.Run(nil, "migrate", "apply", "--dir", "file://"+w.Path("migrations"), "--url", w.URL("db.sqlite"), "--tx-mode", c.Mode, "--allow-dirty")
+	if r.Exit == 0 {
+		bad("the transaction adds a foreign-key violation, yet its commit was accepted and the command exited 0: %s", r)
+	}
+	j, _ := w.Query("db.sqlite", "SELECT sid FROM journal ORDER BY rowid")
+	if len(j) != 0 {
+		bad("after the refused commit statements of the file remain: journal %v", j)
+	}
+	childAfter, _ := w.Query("db.sqlite", "SELECT id, pid FROM child ORDER BY id")
+	if fmt.Sprint(childBefore) != fmt.Sprint(childAfter) {
+		bad("after the refused commit the rows of child differ: %v -> %v", childBefore, childAfter)
+	}
+	if revs, err := w.Revisions("db.sqlite"); err == nil {
+		for v, rv := range revs {
+			if rv[0] != "0" {
+				bad("after the refused commit revision %s records applied=%s total=%s", v, rv[0], rv[1])
+			}
+		}
+	}
+	return
+}
+
 func cases(tier string) []Case {
 	var cs []Case
+	for _, mode := range []string{"file", "all"} {
+		cs = append(cs, Case{Kind: "migrate_fkcommit", Mode: mode, FailF: -1}, Case{Kind: "migrate_fkcommit", Mode: mode, FailF: -1, Extra: "two_for_one"})
+	}
 	shapes := [][]fileSpec{{{N: 2}}, {{N: 3}}, {{N: 2}, {N: 2}}, {{N: 1}, {N: 3}}, {{N: 2}, {N: 1}, {N: 2}}}
 	if tier == "thorough" {
 		shapes = append(shapes, [][]fileSpec{{{N: 1}}, {{N: 1}, {N: 1}}, {{N: 3}, {N: 3}}, {{N: 1}, {N: 1}, {N: 1}}, {{N: 2}, {N: 2}, {N: 2}}, {{N: 1}, {N: 2}, {N: 3}}, {{N: 3}, {N: 2}, {N: 1}}}...)
@@ -746,7 +806,7 @@ func classify(c Case, problems []string) string {
 
 func Run(r *report.Run) {
 	defer clih.Cleanup()
-	r.Rule = "real CLI on real SQLite files: (1) `migrate apply`: directory shapes (1-3 files x 1-3 statements, and directories with a checkpoint file preceded by older files) x a really failing statement (naming a missing table; for the plain directories also a constraint violation with the SQLite conflict clause OR ROLLBACK) at every position x tx-mode {file, all, none} x per-file txmode directive on the failing / preceding file x apply count {all, 1, 2} (plus every pair of failing positions in one file, repaired one after the other): the state after the failure (journal rows written by the statements themselves + revision rows, read by our own connection) must equal what the mode promises, and after repairing the file and re-running the full dump must equal that of a run that never failed; (2) `migrate apply --dry-run` from 5 start states (fresh, partially applied, one file applied, fully applied, non-empty without history) x modes x count x {--baseline, --allow-dirty}: dump and directory byte-identical; (3) `schema apply` on populated tables whose plan fails midway on the data, default / file / none tx-mode, and --dry-run; non-trivial = every case; distinct = the case tuple"
+	r.Rule = "real CLI on real SQLite files: (1) `migrate apply`: directory shapes (1-3 files x 1-3 statements, and directories with a checkpoint file preceded by older files) x a really failing statement (naming a missing table; for the plain directories also a constraint violation with the SQLite conflict clause OR ROLLBACK) at every position x tx-mode {file, all, none} x per-file txmode directive on the failing / preceding file x apply count {all, 1, 2} (plus every pair of failing positions in one file, repaired one after the other): the state after the failure (journal rows written by the statements themselves + revision rows, read by our own connection) must equal what the mode promises, and after repairing the file and re-running the full dump must equal that of a run that never failed; (1b) a failure of the commit itself: the SQLite driver refuses to commit a transaction that adds a foreign-key violation; on a database that already holds one (two) orphan rows the first file replaces them by another orphan (same / lower count): file and all mode must fail and keep nothing; (2) `migrate apply --dry-run` from 5 start states (fresh, partially applied, one file applied, fully applied, non-empty without history) x modes x count x {--baseline, --allow-dirty}: dump and directory byte-identical; (3) `schema apply` on populated tables whose plan fails midway on the data, default / file / none tx-mode, and --dry-run; non-trivial = every case; distinct = the case tuple"
 	r.Assumptions = []string{
 		"after a repair the hash / partial_hashes columns of the revision row legitimately differ from a never-failed run and are masked; timestamps are masked",
 		"`--tx-mode all` with per-file txmode directives is rejected by the CLI and not enumerated",
